@@ -150,6 +150,37 @@ def const_width_pairs(rng, n):
     return out
 
 
+def check_width(res, c, typ, fam, L, a, b, kv, variant):
+    edges = [h2f(t) for t in kv['ranges'].split(',')]
+    bins = [int(t[1:]) for t in kv['bins'].split(',')]
+
+    def viol(sig, msg):
+        res.violation(PROP, '%s:with_const_width:%s' % (fam, sig), '%s::with_const_width(%r, %r): %s' % (typ, a, b, msg), c, variant)
+    if len(edges) != L + 1 or len(bins) != L:
+        viol('shape', '%d edges, %d bins' % (len(edges), len(bins)))
+        return
+    if any(bins):
+        viol('bins', 'bins not zero: %r' % bins)
+    if f2h(edges[0]) != f2h(a):
+        viol('first-edge', 'first edge %r is not exactly start' % edges[0])
+    if any(not (edges[i] <= edges[i + 1]) for i in range(L)):
+        viol('not-monotone', 'edges are not non-decreasing: %r' % edges[:6])
+    tol = 8 * Fraction(math.ulp(max(abs(a), abs(b))))
+    fa, fb = Fraction(a), Fraction(b)
+    worst = 0.0
+    for i, e in enumerate(edges):
+        if e != e or abs(e) == math.inf:
+            viol('nonfinite-edge', 'edge %d = %r' % (i, e))
+            break
+        d = abs(Fraction(e) - (fa + i * (fb - fa) / L))
+        worst = max(worst, float(d / Fraction(math.ulp(max(abs(a), abs(b))))))
+        if d > tol:
+            viol('edge-error', 'edge %d = %r deviates from start+i*(end-start)/LEN by %.3g ulp' % (
+                i, e, float(d / Fraction(math.ulp(max(abs(a), abs(b)))))))
+            break
+    res.maxi('edge_error_ulps', worst)
+
+
 def shard_width(desc):
     res = Result()
     variant = desc['variant']
@@ -183,34 +214,7 @@ def shard_width(desc):
             res.count('evaluations')
             res.count('const_width_calls')
             res.distinct.add(hash((typ, f2h(a), f2h(b))))
-            edges = [h2f(t) for t in r.kv['ranges'].split(',')]
-            bins = [int(t[1:]) for t in r.kv['bins'].split(',')]
-
-            def viol(sig, msg):
-                res.violation(PROP, '%s:with_const_width:%s' % (fam, sig), '%s::with_const_width(%r, %r): %s' % (typ, a, b, msg), c, variant)
-            if len(edges) != L + 1 or len(bins) != L:
-                viol('shape', '%d edges, %d bins' % (len(edges), len(bins)))
-                continue
-            if any(bins):
-                viol('bins', 'bins not zero: %r' % bins)
-            if f2h(edges[0]) != f2h(a):
-                viol('first-edge', 'first edge %r is not exactly start' % edges[0])
-            if any(not (edges[i] <= edges[i + 1]) for i in range(L)):
-                viol('not-monotone', 'edges are not non-decreasing: %r' % edges[:6])
-            tol = 8 * Fraction(math.ulp(max(abs(a), abs(b))))
-            fa, fb = Fraction(a), Fraction(b)
-            worst = 0.0
-            for i, e in enumerate(edges):
-                if e != e or abs(e) == math.inf:
-                    viol('nonfinite-edge', 'edge %d = %r' % (i, e))
-                    break
-                d = abs(Fraction(e) - (fa + i * (fb - fa) / L))
-                worst = max(worst, float(d / Fraction(math.ulp(max(abs(a), abs(b))))))
-                if d > tol:
-                    viol('edge-error', 'edge %d = %r deviates from start+i*(end-start)/LEN by %.3g ulp' % (
-                        i, e, float(d / Fraction(math.ulp(max(abs(a), abs(b)))))))
-                    break
-            res.maxi('edge_error_ulps', worst)
+            check_width(res, c, typ, fam, L, a, b, r.kv, variant)
     return res
 
 
@@ -257,3 +261,23 @@ def run(tier, seed):
             'const_width_calls': 1000}
     return common.finish(PROP, tier, seed, total, RULE, t0, ASSUME, min_events=need, exhaustive=True,
                          extra={'builds': [v for v, _ in variants], 'exhaustive_lengths': {str(k): v for k, v in exh.items()}})
+
+
+def rejudge(case, recs, res, variant, v):
+    typ = case.type
+    L = int(typ.lstrip('CH'))
+    fam = 'histogram_const' if typ.startswith('C') else 'Histogram'
+    marks, wmarks = [], []
+    for i, o in enumerate(case.ops):
+        t = o.split()
+        if t[0] == 'HR':
+            marks.append((i, i + 1, [h2f(x) for x in t[2:]]))
+        elif t[0] == 'HW':
+            wmarks.append((i + 1, h2f(t[2]), h2f(t[3])))
+    if marks:
+        judge_batch(case, typ, L, marks, recs, res, variant)
+    by_op = {r.op: r for r in recs if r.kind == 'o'}
+    for opi, a, b in wmarks:
+        if opi in by_op:
+            res.count('evaluations')
+            check_width(res, case, typ, fam, L, a, b, by_op[opi].kv, variant)
